@@ -105,8 +105,9 @@ func (w *world) observe(kind string) xob {
 	return o
 }
 
-// api is the surface of the daemon the scripts drive: an OrderedDaemon instance, or the package-level wrappers around the
-// package's default daemon (`mode default`; once per process, the default daemon cannot be renewed).
+// api is the surface of the daemon the scripts drive — the package's own `Daemon` interface (app/daemon/interfaces.go, the
+// way `app` uses a daemon) without `DebugLogger` —, implemented by an OrderedDaemon instance or by the package-level wrappers
+// around the package's default daemon (`mode default`; once per process, the default daemon cannot be renewed).
 type api interface {
 	BackgroundWorker(name string, handler daemon.WorkerFunc, order ...int) error
 	Start()
@@ -119,7 +120,14 @@ type api interface {
 	GetRunningBackgroundWorkers() []string
 }
 
-var _ api = (*daemon.OrderedDaemon)(nil)
+// a change of a method set or signature in interfaces.go or daemon.go does not compile: OrderedDaemon implements the
+// package's interface, and the interface has (at least) the methods with the signatures the scripts drive
+var (
+	_ daemon.Daemon     = (*daemon.OrderedDaemon)(nil)
+	_ api               = daemon.Daemon(nil)
+	_ api               = (*daemon.OrderedDaemon)(nil)
+	_ daemon.WorkerFunc = func(context.Context) {}
+)
 
 type pkgAPI struct{}
 
@@ -167,7 +175,7 @@ func init() {
 }
 
 func newWorld(seq, useDefault bool) *world {
-	var d api = daemon.New()
+	var d api = daemon.Daemon(daemon.New()) // driven through the package's interface
 	if useDefault && !defaultUsed {
 		defaultUsed = true
 		d = pkgAPI{}
@@ -265,6 +273,12 @@ func (w *world) handler(in *inst) daemon.WorkerFunc {
 			select {
 			case <-in.finish:
 				w.d.Shutdown()
+				// its own context is cancelled by that shutdown (or by one that was quicker)
+				select {
+				case <-ctx.Done():
+				case <-time.After(w.guard()):
+					w.log("timeout")
+				}
 			case <-ctx.Done():
 			}
 		case "q":
@@ -276,6 +290,10 @@ func (w *world) handler(in *inst) daemon.WorkerFunc {
 			}
 		}
 		if in.kind != "x" && in.kind != "q" {
+			fin := in.finish
+			if in.kind == "k" {
+				fin = nil // a `k` worker was kicked to call Shutdown(); it returns when it is cancelled
+			}
 			select {
 			case <-ctx.Done():
 				in.seen.Store(true)
@@ -288,7 +306,7 @@ func (w *world) handler(in *inst) daemon.WorkerFunc {
 					w.guarded("Start", func() { w.d.Start() })
 				}
 				w.afterSeen(in)
-			case <-in.finish:
+			case <-fin:
 			}
 		}
 		// the return is logged before it happens (and before wg.Done can run)
@@ -441,6 +459,9 @@ func (w *world) quiesce() bool {
 			}
 			if in.kind == "a" && in.started.Load() && !in.nested.Load() {
 				return false // the registration from inside the handler has not returned yet
+			}
+			if in.kind == "k" && in.started.Load() && in.finReq.Load() && w.d.IsRunning() {
+				return false // the shutdown the handler started from inside has not finished yet
 			}
 			due := in.started.Load() && (in.kind == "x" || in.finReq.Load() || in.returned.Load() || in.seen.Load())
 			if !due {
@@ -828,6 +849,17 @@ func (w *world) finishCase() []string {
 	}
 	bgDone := make(chan struct{})
 	go func() { w.bg.Wait(); close(bgDone) }()
+	// a call that took the armed hook at the last moment (after the release attempt above) must not sit out its guard
+	go func() {
+		for {
+			select {
+			case <-bgDone:
+				return
+			case w.release <- struct{}{}:
+			case <-time.After(time.Millisecond):
+			}
+		}
+	}()
 	select {
 	case <-bgDone:
 	case <-time.After(w.guard()):
